@@ -188,10 +188,9 @@ def reach(fb, roots, stop=None):
                     if stop and stop(n):
                         ext.setdefault(n, p)
                         continue
-                    if n in fb.items:
-                        work.append(n)
-                    elif t.get("callee") in fb.items:
-                        work.append(t["callee"])
+                    tgt = fb.lookup(n) or fb.lookup(t.get("callee"))
+                    if tgt is not None:
+                        work.append(tgt.path)
                     else:
                         ext.setdefault(n, p)
     for sname in list(statics):
